@@ -88,15 +88,26 @@ Definition qrender1 (t : qtok) : str :=
   end.
 Definition qrender (ts : list qtok) : str := concat (map qrender1 ts).
 
-(* doubled straight quotes: [pending] = the previous character is a quote
-   character (bare, or the second character of an escaped quote) not yet part of a pair *)
-Fixpoint q_doubles (pending : bool) (ts : list qtok) (off : nat) : list nat :=
+(* doubled straight quotes: a bare quote directly after a quote character
+   (a bare quote, or the second character of an escaped quote); pairs are
+   counted from the left and do not overlap.  The offset is that of the first
+   quote character of the pair. *)
+Fixpoint q_doubles (ts : list qtok) (off : nat) : list nat :=
   match ts with
   | [] => []
   | QQuote :: ts' =>
-      if pending then (off - 1) :: q_doubles false ts' (S off) else q_doubles true ts' (S off)
-  | QEsc c :: ts' => q_doubles (N.eqb c c_quote) ts' (S (S off))
-  | _ :: ts' => q_doubles false ts' (S off)
+      match ts' with
+      | QQuote :: ts'' => off :: q_doubles ts'' (S (S off))
+      | _ => q_doubles ts' (S off)
+      end
+  | QEsc c :: ts' =>
+      match ts' with
+      | QQuote :: ts'' =>
+          if N.eqb c c_quote then S off :: q_doubles ts'' (S (S (S off)))
+          else q_doubles ts' (S (S off))
+      | _ => q_doubles ts' (S (S off))
+      end
+  | _ :: ts' => q_doubles ts' (S off)
   end.
 
 (* what the silencer leaves: escapes and pairs of bare quotes become blanks *)
@@ -106,7 +117,11 @@ Fixpoint q_silence (ts : list qtok) : list qtok :=
   match ts with
   | [] => []
   | QEsc _ :: ts' => q_blank :: q_blank :: q_silence ts'
-  | QQuote :: QQuote :: ts'' => q_blank :: q_blank :: q_silence ts''
+  | QQuote :: ts' =>
+      match ts' with
+      | QQuote :: ts'' => q_blank :: q_blank :: q_silence ts''
+      | _ => QQuote :: q_silence ts'
+      end
   | t :: ts' => t :: q_silence ts'
   end.
 
@@ -114,10 +129,9 @@ Definition is_qquote (t : qtok) : bool := match t with QQuote => true | _ => fal
 
 (* the silenced value starts and ends with a quote *)
 Definition q_quoted (ts : list qtok) : bool :=
-  let s := q_silence ts in
-  match s with
-  | [] => false
-  | t :: _ => is_qquote t && is_qquote (last s t)
+  match q_silence ts, rev (q_silence ts) with
+  | a :: _, b :: _ => is_qquote a && is_qquote b
+  | _, _ => false
   end.
 
 (* offsets of the bare apostrophes *)
@@ -125,9 +139,11 @@ Fixpoint q_apostrophes (ts : list qtok) (off : nat) : list nat :=
   match ts with
   | [] => []
   | QApos :: ts' => off :: q_apostrophes ts' (S off)
-  | t :: ts' => q_apostrophes ts' (off + length (qrender1 t))
+  | t :: ts' => q_apostrophes ts' (length (qrender1 t) + off)
   end.
 
 Definition quoting_model (ts : list qtok) : list issue :=
-  map (lit_issue y_double_quotes) (q_doubles false ts 0) ++
+  map (lit_issue y_double_quotes) (q_doubles ts 0) ++
   (if q_quoted ts then [] else map (lit_issue y_apostrophe) (q_apostrophes ts 0)).
+
+Definition qtoks_ok (ts : list qtok) : Prop := Forall (fun t => qtok_ok t = true) ts.
